@@ -136,18 +136,46 @@ pub fn roundtrip(ctx: &mut Ctx) {
     let n = if ctx.thorough { 1500 } else { 110 };
     let mut salts: Vec<String> = vec![];
     let mut ivs: Vec<Vec<u8>> = vec![];
-    for case in 0..n {
+    // after the random cases: a systematic sweep of the "large single write" corner — 5 writer kinds x {store,deflate,zstd} x {none,CTR,CBC}
+    let n_sys = 45;
+    for case in 0..n + n_sys {
+        let sys = if case >= n { Some(case - n) } else { None };
         let mut cfg = gen::gen_cfg(&mut rng, case % 9 == 0);
         if case % 3 == 0 && cfg.enc == 0 { cfg.enc = 1 + (case as u8 / 3) % 2; }
-        let kind = WRITER_KINDS[case % 5];
+        let kind = match sys { Some(k) => WRITER_KINDS[k % 5], None => WRITER_KINDS[case % 5] };
         // corpus (runs first): witness of known finding C16-empty-ctr-store
         let corpus_empty_ctr = case == 0;
         if corpus_empty_ctr {
             cfg = gen::Cfg { compression: 0, level: None, enc: 1, mode: 1, kdf: gen::Kdf::Pbkdf2(Some(1)), password: "corpus-password".into() };
         }
-        let big = ctx.thorough && case % 97 == 0;
-        let ne = rng.gen_range(0..4);
-        let mut entries: Vec<EntrySpec> = (0..ne).map(|_| gen::gen_entry(&mut rng, if big { 3_000_000 } else { 300 })).collect();
+        // "large" slice of the quantifier: payloads of 40 KiB .. 2.5 MiB written in ONE write call (or a few), incompressible or
+        // compressible — codec staging buffers (32 KiB) and chunk-size limits only come into play there
+        let big = sys.is_some() || case % 11 == 7 || (ctx.thorough && case % 97 == 0);
+        if let Some(k) = sys {
+            cfg.compression = [0u8, 1, 2][(k / 5) % 3];
+            cfg.level = None;
+            let c = (k / 15) % 3;
+            cfg.enc = if c == 0 { 0 } else { 1 + (k % 2) as u8 };
+            cfg.mode = if c == 1 { 1 } else { 0 };
+            cfg.kdf = gen::Kdf::Pbkdf2(Some(1));
+        } else if big {
+            cfg.compression = [0u8, 0, 1, 2, 4][(case / 11) % 5];
+            cfg.level = None;
+            if (case / 11) % 2 == 0 { cfg.enc = 1 + ((case / 22) % 2) as u8; cfg.mode = ((case / 11) % 4 / 2) as u8; }
+        }
+        let ne = if sys.is_some() { 0 } else { rng.gen_range(0..4) };
+        let mut entries: Vec<EntrySpec> = (0..ne).map(|_| gen::gen_entry(&mut rng, 300)).collect();
+        if big {
+            let mut e = gen::gen_entry(&mut rng, 0);
+            e.kind = Kind::File;
+            e.name = "big/payload.bin".into();
+            let n = match sys { Some(k) => [70_001usize, 1_200_003][(k / 5) % 2 ^ (k % 2)], None => [40_000usize, 70_000, 1_200_000, 2_500_000][rng.gen_range(0..4)] };
+            e.content = if sys.is_some() || rng.gen_bool(0.7) { crate::util::bytes(&mut rng, n) } else { (0..n).map(|i| (i % 251) as u8).collect() };
+            e.writes = if sys.is_some() || rng.gen_bool(0.6) { vec![n] } else { vec![n / 3, 1, n / 2] };
+            e.link = String::new();
+            e.xattrs.clear();
+            entries.push(e);
+        }
         if corpus_empty_ctr {
             let mut e = gen::gen_entry(&mut rng, 0);
             e.kind = Kind::File;
